@@ -308,7 +308,12 @@ func genMod(f func(any) (any, bool), flavour string) func(any) (any, bool) {
 
 func runBeh(b *Beh) []stepLine {
 	lines := []stepLine{}
+	// the statement names simple and gen data; the ordered user Keyed/Indexed collections are replayed too
+	// (VERIF_MUT_KEYED=0 turns that off) because the mutators have separate Keyed/Indexed branches
 	flavours := []string{"simple", "gen"}
+	if os.Getenv("VERIF_MUT_KEYED") != "0" {
+		flavours = append(flavours, "keyed")
+	}
 	datas := make([]any, len(flavours))
 	for i, fl := range flavours {
 		datas[i], _ = jl.Build(fl, b.Init)
